@@ -42,4 +42,11 @@ HARNESSES = [
          stubs=["lha_arch_mkdir/_fopen/_symlink/_chmod/_chown/_utime: CHECK(0)", "lha_arch_exists: arbitrary", "lha_basic_reader_*: delivers the arbitrary headers", "lha_decoder_*/lha_macbinary_passthrough: arbitrary results, <= 2 non-empty reads, progress callback invoked",
                 "fwrite/fstat/localtime/time: arbitrary", "safe_printf: no-op; printf: returns the length of a lone %s argument, else 0, no other effect"])
     for nm, c, uw, us in [("l", 0, 14, LU), ("v", 1, 14, LU), ("t", 2, 7, {}), ("p", 3, 7, {}), ("xn", 4, 7, {})]
+] + [
+    dict(name="dirs.cat%d" % c, src="C06/dirs.c", defines=["M=3", "CAT=%d" % c], unwind=9,
+         units=["lib/lha_reader.c:extract_directory,set_directory_metadata,lha_reader_next_file,lha_reader_extract"], timeout=300, mem_gb=6,
+         bounds="catalogue entry %d (%s) of the C06 model-filesystem run; directories may exist before the run with arbitrary mode/time" % (c, d),
+         claim="directory metadata (chmod/chown/utime) is applied only to directories this run created; a pre-existing directory is left as it was",
+         stubs=["lha_arch_*: model filesystem", "lha_basic_reader_*: serves the 3 headers", "decoder: payload decodes, one read"])
+    for c, d in [(1, "a/ a/f c/"), (4, "a/ a/b/ a/g")]
 ]
